@@ -8,7 +8,7 @@ from sim.engine_d import DOpts
 from sim.oracles import V
 from sim.programs import Program, gen_program
 
-from .common import (Exec, absorb, new_outcome, run_exec, sample_of, swarm_knobs, swarm_opts)
+from .common import (Exec, absorb, new_outcome, ref_unusable, run_exec, sample_of, swarm_knobs, swarm_opts)
 
 
 class DCheck:
@@ -56,7 +56,6 @@ class DCheck:
                     ex.on_crash_hook = info["on_crash"]  # type: ignore[attr-defined]
                 if info.get("sweeps") is not None:
                     ex.sweeps = info["sweeps"]  # type: ignore[attr-defined]
-        info["trace_pos_run"] = len(ch.trace)
         info["budget"] = budget
         if self.w_share > 0 and ch.flip("engine.w", self.w_share):
             from .common import run_w
@@ -70,6 +69,9 @@ class DCheck:
                 raise RuntimeError("worker error in engine W: " + run["errors"][0])
             run["res"] = type("R", (), {"aborted": run["end"], "deliveries": [], "quiescent": run["quiescent"]})()
             return prog, ref, run, info
+        # position of the first choice taken inside run_exec (setup picks first): a twin run that must repeat this
+        # execution replays the trace from here
+        info["trace_pos_run"] = len(ch.trace)
         run = run_exec(prog, knobs, ch, opts, setup=st, max_steps=budget,
                        cancel_requested=bool(info.get("cancel_requested")))
         return prog, ref, run, info
@@ -78,7 +80,7 @@ class DCheck:
         out = new_outcome()
         ch = Choices(seed)
         prog, ref, run, info = self.flow(ch, tier)
-        if ref is not None and (not ref["quiescent"] or ref["errors"]):
+        if ref is not None and ref_unusable(ref, prog):
             out["inconclusive"] += 1
             out["execs"] += 1
             out["stats"]["reference_not_clean"] = 1
@@ -107,12 +109,13 @@ class DCheck:
     def replay_one(self, rep: dict[str, Any]) -> list[dict[str, Any]]:
         ch = Choices(rep["seed"], replay=rep["trace"])
         prog, ref, run, info = self.flow(ch, "quick")
-        if ref is not None and (not ref["quiescent"] or ref["errors"]):
+        if ref is not None and ref_unusable(ref, prog):
             return []
         return self.judge(prog, ref, run, info)
 
 
-def one_violation(prop: str, problems: list[tuple[str, str, str]], h: Any = None, ref_h: Any = None) -> list[dict[str, Any]]:
+def one_violation(prop: str, problems: list[tuple[str, str, str]], h: Any = None, ref_h: Any = None,
+                  prog: Any = None) -> list[dict[str, Any]]:
     """problems: (class, message, signature tail).  When the history shows a message of an earlier loop
     iteration acting on a re-armed stage, that diagnosis becomes part of the signature.  ``ref_h``: history of
     the reference run the outcome was compared with -- the in-order run is not immune to that defect (a
@@ -153,5 +156,33 @@ def one_violation(prop: str, problems: list[tuple[str, str, str]], h: Any = None
             sig += "<-plan-commit-lost"
             problems = problems + [("diagnosis", f"StartStage {pl[0]['msg']} claimed stage {pl[0]['stage']} and was acknowledged but its "
                                                  f"plan never became durable (optimistic-lock conflict swallowed): nothing was queued", "")]
+    sweepwindow: list[str] = []
+    if h is not None:
+        from sim.oracles import sweep_in_claim_plan_window
+
+        sw = sweep_in_claim_plan_window(h)
+        if sw:
+            x = sw[0]
+            sweepwindow = [f"{x['queued']}:{x['stage']}"]
+            sig += "<-sweep-inside-claim-plan-window"
+            if x["how"] == "inside":
+                d = (f"a recovery sweep queued {x['queued']} for stage {x['stage']} between the claim commit and the last planning "
+                     f"commit of StartStage {x['msg']}: it started a stage whose planning (tasks / before-stages) was not durable yet")
+            else:
+                d = (f"a recovery sweep queued StartTask for stage {x['stage']} while its before-stages were unfinished: the sweep "
+                     f"read the stage before a concurrent StartStage had stored them and pushed after (check and push are not atomic)")
+            problems = problems + [("diagnosis", d, "")]
+    jumppath: list[str] = []
+    if h is not None and prog is not None:
+        from sim.oracles import jump_path_not_rearmed
+
+        jp = jump_path_not_rearmed(h, prog)
+        if jp:
+            x = jp[0]
+            jumppath = [f"{x['source']}->{x['target']} skipping {','.join(x['not_rearmed'])}"]
+            sig += "<-jump-path-not-rearmed"
+            problems = problems + [("diagnosis", f"the jump from {x['source']} back to {x['target']} re-armed both but left the completed "
+                                                 f"stage(s) {x['not_rearmed']} between them untouched (fan-in with an upstream outside "
+                                                 f"the re-armed set): nothing restarts {x['source']}", "")]
     msg = " || ".join(f"{c}: {m}" for c, m, _ in problems)
-    return [V(prop, cls, msg, sig=sig, classes=[c for c, _, _ in problems], stale=stale, planlost=planlost)]
+    return [V(prop, cls, msg, sig=sig, classes=[c for c, _, _ in problems], stale=stale, planlost=planlost, jumppath=jumppath, sweepwindow=sweepwindow)]
